@@ -119,7 +119,8 @@ def fn_ranges(H, fns):
 def crosshair(job):
     env = dict(os.environ)
     env.update(job['env'])
-    env['PYTHONPATH'] = f'{VERIF}:/repo' + (':' + env['PYTHONPATH'] if env.get('PYTHONPATH') else '')
+    # the tree under test (TORCHTREE_REPO, default /repo) must come first for the CrossHair subprocess as well
+    env['PYTHONPATH'] = f"{VERIF}:{os.environ.get('TORCHTREE_REPO', '/repo')}" + (':' + env['PYTHONPATH'] if env.get('PYTHONPATH') else '')
     t = job['timeout']
     cmd = [sys.executable, '-m', 'chk.c01_k3_xh', 'check', '--report_all', '--per_condition_timeout', str(t),
            '--per_path_timeout', str(max(10.0, t / 10))] + [f'{HARNESS}.{fn}' for fn in job['fns']]
